@@ -95,7 +95,12 @@ type CaseFile struct {
 	entries []string
 	descr   map[int]interface{}
 	Shard   int // cases per shard file (default 300)
+	Base    int // id of the first case (0 for the main file of a run; see NewCaseFile)
 }
+
+// NewCaseFile: a further case file of the same run, with its own header / type / equality
+// (WriteNamed).  Its ids start at base so that they do not collide with the main file's.
+func NewCaseFile(base int) *CaseFile { return &CaseFile{descr: map[int]interface{}{}, Base: base} }
 
 func CoqZ(x interface{}) string {
 	s := fmt.Sprint(x)
@@ -133,7 +138,7 @@ func CoqOpt(some bool, v string) string {
 
 // Add appends (id, model expression, observed value) and returns the id.
 func (c *CaseFile) Add(model, observed string) int {
-	id := len(c.entries)
+	id := c.Base + len(c.entries)
 	c.entries = append(c.entries, fmt.Sprintf(" (%d%%N, %s, %s) ::", id, model, observed)) // ids in N: unary nat literals are slow to parse
 	return id
 }
@@ -145,7 +150,18 @@ func (c *CaseFile) Len() int { return len(c.entries) }
 // chunked (50 entries) because Coq's front end is quadratic in list depth;
 // shards are evaluated in parallel by the driver.
 func (c *CaseFile) Write(dir, header, ty, eqb string) error {
-	old, _ := filepath.Glob(filepath.Join(dir, "cases_*.v"))
+	return c.write(dir, "cases_", header, ty, eqb)
+}
+
+// WriteNamed emits the shards cases_<name>_<k>.v of an additional case file.  Call it AFTER the
+// main file's Write (which clears every cases_*.v of the directory); the driver evaluates all
+// cases_*.v shards alike.
+func (c *CaseFile) WriteNamed(dir, name, header, ty, eqb string) error {
+	return c.write(dir, "cases_"+name+"_", header, ty, eqb)
+}
+
+func (c *CaseFile) write(dir, prefix, header, ty, eqb string) error {
+	old, _ := filepath.Glob(filepath.Join(dir, prefix+"*.v"))
 	for _, f := range old {
 		os.Remove(f)
 	}
@@ -175,7 +191,7 @@ func (c *CaseFile) Write(dir, header, ty, eqb string) error {
 		names = append(names, "nil")
 		out.WriteString("Definition mismatches := Eval vm_compute in\n  map (fun c => fst (fst c)) (filter (fun c => negb (" + eqb + " (snd (fst c)) (snd c))) (" + strings.Join(names, " ++ ") + ")).\n")
 		out.WriteString("Print mismatches.\n")
-		if err := os.WriteFile(filepath.Join(dir, fmt.Sprintf("cases_%d.v", k)), []byte(out.String()), 0644); err != nil {
+		if err := os.WriteFile(filepath.Join(dir, fmt.Sprintf("%s%d.v", prefix, k)), []byte(out.String()), 0644); err != nil {
 			return err
 		}
 	}
